@@ -68,7 +68,7 @@ def vsig(v):
 
 
 def replay_path(prop, seed):
-    d = os.path.join(VERIF, "replays")
+    d = os.environ.get("VERIF_REPLAY_DIR") or os.path.join(VERIF, "replays")
     os.makedirs(d, exist_ok=True)
     return os.path.join(d, "%s-%d.json" % (prop, seed))
 
@@ -289,8 +289,9 @@ def check(prop, tier, runs=None, workers=None, wall=None):
         "wall_s": round(wall, 3),
         "violations": len(reported),
     }
-    os.makedirs(os.path.join(VERIF, "evidence"), exist_ok=True)
-    with open(os.path.join(VERIF, "evidence", prop + ".json"), "w") as f:
+    evdir = os.environ.get("VERIF_EVIDENCE_DIR") or os.path.join(VERIF, "evidence")
+    os.makedirs(evdir, exist_ok=True)
+    with open(os.path.join(evdir, prop + ".json"), "w") as f:
         json.dump(ev, f, indent=1, sort_keys=True)
     say(
         "%s: %d runs in %.1fs (%.0f runs/h), %d distinct non-trivial, logical time %d line events, %d reported, %d known findings, %d harness errors"
